@@ -14,16 +14,16 @@ import (
 
 // Cfg bounds and biases module generation.
 type Cfg struct {
-	MaxFuncs  int
-	MaxBlocks int
-	MaxInsts  int // per block
+	MaxFuncs   int
+	MaxBlocks  int
+	MaxInsts   int // per block
 	MaxGlobals int
 	// Off switches features off (generator exclusions for known findings and profiles); key = feature name.
 	Off map[string]bool
 	// Count is called whenever an exclusion prevented a construct from being generated.
 	Count func(feature string)
 	// NoNames makes every value that may be unnamed unnamed (numbering profile bias).
-	UnnamedBias int // 0..10: probability/10 that a local is unnamed
+	UnnamedBias    int // 0..10: probability/10 that a local is unnamed
 	UnnamedGlobals bool
 	// Big asks for at least 8 entities in each top-level map of the translator
 	// (types, comdats, globals, attribute groups, named metadata, metadata).
@@ -615,10 +615,10 @@ func (g *G) intExpr(t *am.Type, depth int) *am.Const {
 }
 
 var (
-	IPreds    = []string{"eq", "ne", "ugt", "uge", "ult", "ule", "sgt", "sge", "slt", "sle"}
-	FPreds    = []string{"false", "oeq", "ogt", "oge", "olt", "ole", "one", "ord", "ueq", "ugt", "uge", "ult", "ule", "une", "uno", "true"}
-	FastMath  = []string{"nnan", "ninf", "nsz", "arcp", "contract", "afn", "reassoc", "fast"}
-	Linkages  = []string{"", "", "private", "internal", "weak", "weak_odr", "linkonce", "linkonce_odr", "available_externally"}
-	CCs       = []string{"", "ccc", "fastcc", "coldcc", "cc 10", "cc 11", "webkit_jscc", "anyregcc", "preserve_mostcc", "preserve_allcc", "cxx_fast_tlscc", "swiftcc", "tailcc", "x86_stdcallcc", "x86_fastcallcc", "arm_apcscc", "arm_aapcscc", "arm_aapcs_vfpcc", "msp430_intrcc", "x86_thiscallcc", "ptx_device", "spir_func", "intel_ocl_bicc", "x86_64_sysvcc", "win64cc", "x86_vectorcallcc", "hhvmcc", "hhvm_ccc", "x86_regcallcc", "amdgpu_gs", "cc 77", "cc 1023"}
-	FnAttrs   = []string{"alwaysinline", "argmemonly", "builtin", "cold", "convergent", "hot", "inaccessiblememonly", "inaccessiblemem_or_argmemonly", "inlinehint", "jumptable", "minsize", "mustprogress", "naked", "nobuiltin", "nocallback", "nocf_check", "noduplicate", "nofree", "noimplicitfloat", "noinline", "nomerge", "nonlazybind", "noprofile", "norecurse", "noredzone", "noreturn", "nosync", "nounwind", "null_pointer_is_valid", "optforfuzzing", "optsize", "readnone", "readonly", "returns_twice", "safestack", "sanitize_address", "sanitize_hwaddress", "sanitize_memory", "sanitize_memtag", "sanitize_thread", "shadowcallstack", "speculatable", "speculative_load_hardening", "ssp", "sspreq", "sspstrong", "strictfp", "uwtable", "willreturn", "writeonly"}
+	IPreds   = []string{"eq", "ne", "ugt", "uge", "ult", "ule", "sgt", "sge", "slt", "sle"}
+	FPreds   = []string{"false", "oeq", "ogt", "oge", "olt", "ole", "one", "ord", "ueq", "ugt", "uge", "ult", "ule", "une", "uno", "true"}
+	FastMath = []string{"nnan", "ninf", "nsz", "arcp", "contract", "afn", "reassoc", "fast"}
+	Linkages = []string{"", "", "private", "internal", "weak", "weak_odr", "linkonce", "linkonce_odr", "available_externally"}
+	CCs      = []string{"", "ccc", "fastcc", "coldcc", "cc 10", "cc 11", "webkit_jscc", "anyregcc", "preserve_mostcc", "preserve_allcc", "cxx_fast_tlscc", "swiftcc", "tailcc", "x86_stdcallcc", "x86_fastcallcc", "arm_apcscc", "arm_aapcscc", "arm_aapcs_vfpcc", "msp430_intrcc", "x86_thiscallcc", "ptx_device", "spir_func", "intel_ocl_bicc", "x86_64_sysvcc", "win64cc", "x86_vectorcallcc", "hhvmcc", "hhvm_ccc", "x86_regcallcc", "amdgpu_gs", "cc 77", "cc 1023"}
+	FnAttrs  = []string{"alwaysinline", "argmemonly", "builtin", "cold", "convergent", "hot", "inaccessiblememonly", "inaccessiblemem_or_argmemonly", "inlinehint", "jumptable", "minsize", "mustprogress", "naked", "nobuiltin", "nocallback", "nocf_check", "noduplicate", "nofree", "noimplicitfloat", "noinline", "nomerge", "nonlazybind", "noprofile", "norecurse", "noredzone", "noreturn", "nosync", "nounwind", "null_pointer_is_valid", "optforfuzzing", "optsize", "readnone", "readonly", "returns_twice", "safestack", "sanitize_address", "sanitize_hwaddress", "sanitize_memory", "sanitize_memtag", "sanitize_thread", "shadowcallstack", "speculatable", "speculative_load_hardening", "ssp", "sspreq", "sspstrong", "strictfp", "uwtable", "willreturn", "writeonly"}
 )
